@@ -310,6 +310,12 @@ func (s *Server) receivePack(w http.ResponseWriter, r *http.Request) {
 		return
 	}
 	ex.Kind = "rp-negotiate"
+	// A request that carries updates is the greeting of a NEW session, whatever cookie a client that has
+	// talked to this server before still sends (`wrgl push --all` runs one session per branch over one
+	// cookie jar); the later requests of a session (table haves only) carry none.
+	if len(req.Updates) > 0 {
+		ses = nil
+	}
 	if ses == nil {
 		if len(req.Updates) == 0 {
 			http.Error(w, "no updates", 400)
